@@ -53,7 +53,9 @@ class Env:
         if self.as_nobody:
             vp.chown_tree(self.root)
 
-    def run(self, scenario, plan=None, timeout=120):
+    def run(self, scenario, plan=None, timeout=120, tmp_above_fixture=False):
+        """tmp_above_fixture: the system's temporary directory is an ancestor of the crate and its fixtures (a checkout below /tmp, a CI
+        workspace in $RUNNER_TEMP): temporary copies are made there, leftovers are the entries the run adds to it"""
         for n in ("docker", "pack"):        # a scripted fault may have removed a stand-in
             p = os.path.join(self.bin, n)
             if not os.path.lexists(p):
@@ -76,6 +78,9 @@ class Env:
         env = {"PATH": self.bin, "HTTP_PROXY": "http://proxy.host:3128", "HTTPS_PROXY": "http://proxy.host:3128", "NO_PROXY": "localhost", "http_proxy": "http://proxy.host:3128", "https_proxy": "http://lower.proxy:1", "no_proxy": "x", "DOCKER_HOST": ENDPOINT_ENV["DOCKER_HOST"], "DOCKER_CONTEXT": ENDPOINT_ENV["DOCKER_CONTEXT"], "TMPDIR": self.tmp, "CARGO_MANIFEST_DIR": self.crate, "VP_CMDLOG": self.log, "VP_CMDPLAN": self.plan, "VP_STANDIN_BIN": self.bin, "VP_STANDIN_TARGET": os.path.join(vp.BIN, "vpstandin"), "RUST_BACKTRACE": "0",
                # (cargo test sets CARGO; libcnb-test asks it for the workspace root when it packages a buildpack of the crate under test)
                "CARGO": real_cargo()}
+        root_before = set(os.listdir(self.root)) | {os.path.basename(self.log)}
+        if tmp_above_fixture:
+            env["TMPDIR"] = self.root
         try:
             import shutil
             nobody = [shutil.which(vp.NOBODY[0]) or vp.NOBODY[0]] + vp.NOBODY[1:]
@@ -87,7 +92,7 @@ class Env:
         if os.path.exists(self.log):
             for line in open(self.log):
                 log.append(json.loads(line))
-        leftovers = sorted(os.listdir(self.tmp))
+        leftovers = sorted(os.listdir(self.tmp)) if not tmp_above_fixture else sorted(set(os.listdir(self.root)) - root_before)
         return rc, err, log, leftovers
 
 
